@@ -476,7 +476,7 @@ theorem parseText_err (src : List Char) (e : PyErr) : parseText src = .error e â
     split at h
     Â· next e1 h1 =>
       cases h
-      have := (parseText_body_HS (G := G) (4 * src.length + 64) (Â· = [])).run s0 hi
+      have := (parseText_body_HS (G := G) (5 * src.length + 64) (Â· = [])).run s0 hi
       rw [h1] at this
       exact this
     Â· cases h
